@@ -23,6 +23,57 @@ def suite(name, quick, thorough):
 TECH = "Lean 4 proof over a hand-written model + differential correspondence check"
 
 PROPS = {
+    "C09": {
+        "modules": ["Qvnt.Props.C09"],
+        "suites": [
+            suite("c09", dict(count=2500), dict(count=60000)),
+            suite("int", dict(count=150), dict(count=3000)),
+        ],
+        "mismatch_tags": [r"igate.*", r"iadd.*", r"inew", r"ixor"],
+        "spec_tags": [r"c09\..*"],
+        "trusted_base": TB_COMMON + ["translator tools/extract.py: the gate-name table and the canonical-form flags of the gate! macro arms are regenerated from src/qasm/int/gates.rs on every run; C09_table_* / C09_arms_canonical are re-proved by decide over the regenerated table"],
+        "assumptions": ASSUME_COMMON + ["qelib1.inc in the repository is an empty stub; the reference definitions (Spec/RefSem.lean, Spec.qelib) are transcribed by hand from the OpenQASM 2.0 paper and the standard qelib1.inc"],
+        "level_text": "Lean theorems (Props/C09.lean, 39): the regenerated gate table has exactly the 22 expected names, each bound to the expected macro arm and constructor, upper case = lower case, every macro arm has the canonical text the model mirrors (all by decide over the generated file, so a rebound row, a swapped argument or a dropped .dgr() fails the build); for every table name Gates.process builds exactly what the operator-level program for that name builds (sdg/tdg the daggered gate, u2/u3 with parameters in written order), hence by build_refines the documented matrix; k leading c's take the first k arguments as controls and act as the base gate where all of them are 1 (C09_ctrl_k, C09_ctrl_block); arity errors are characterised; the 14 one-qubit standard names agree with their qelib1.inc definition over U(theta,phi,lambda) up to a global phase (over the reals). Tied to the code by calling the real gates::process on every accepted name (0-2 leading c, upper/lower case, random qubits and parameters) and comparing with the model; oracle: the qelib1.inc definition body evaluated on the same input, up to one global phase (cx cy cz ch ccx crz cu1 cu3 swap cswap included), and the documented matrix for extensions.",
+        "level_note": "Trusted: Lean kernel + standard axioms; the translator for the table; hand-written model of the macro arms and the c-prefix recursion (validated by correspondence and by the canonical-text flags). Known finding D9: cu1 is controlled-RZ, not qelib1's controlled phase (C09_cu1_is_crz, C09_cu1_partial).",
+        "technique": "Lean 4 proof over a model whose gate table is regenerated from the source + differential correspondence check",
+        "design_ref": "DESIGN.md section 5, C09",
+    },
+    "C10": {
+        "modules": ["Qvnt.Props.C10"],
+        "suites": [suite("int", dict(count=500), dict(count=15000)), suite("c10e", dict(count=300), dict(count=6000))],
+        "mismatch_tags": [r"iadd.*", r"inew", r"ixor", r"isym.*", r"iexpr.*"],
+        "spec_tags": [r"refsem\..*", r"iexpect\.accept", r"c10\..*"],
+        "trusted_base": TB_COMMON,
+        "assumptions": ASSUME_COMMON + ["text -> AST (crate qvnt-qasm) and expression text -> RPN (crate meval) are external and not modelled: the model starts from the AST / RPN the real crates produced; the intended value of generated expressions is known to the generator and compared with what the pipeline applied"],
+        "level_text": "Lean theorems (Props/C10.lean, 20): bit k of the alias mask is set iff the k-th declared (qu)bit belongs to that register, a register declared after `pre` occupies bits pre.length .. pre.length+n-1 and r[i] resolves to 2^(offset+i), distinct (qu)bits are disjoint; every accepted gate statement changes the queue by exactly one push of its operator and nothing else, measure/reset by exactly one separator block, barrier/declarations not at all, and statements compose in program order; one level of a user-defined gate is its body with formal qubits and parameters substituted, in body order. Tied to the code by the int suite (random programs with several registers, interleaved cregs, parameterised nested gate definitions, expression trees): interpreter state and executed result compared with the model, and the executed result compared with the statement-by-statement reference semantics (Spec/RefSem).",
+        "level_note": "Trusted: Lean kernel + standard axioms; hand-written model of int/mod.rs, macros.rs, parse.rs (RPN evaluation); external parsers as stated.",
+        "technique": TECH,
+        "design_ref": "DESIGN.md section 5, C10",
+    },
+    "C13": {
+        "modules": ["Qvnt.Props.C13"],
+        "suites": [suite("c13", dict(count=600), dict(count=20000))],
+        "mismatch_tags": [r"iadd.*", r"inew"],
+        "spec_tags": [r"iexpect\..*"],
+        "trusted_base": TB_COMMON,
+        "assumptions": ASSUME_COMMON + ["statements the external parser itself rejects (e.g. a measure inside a gate body) surface as parse errors and are outside the model"],
+        "level_text": "Lean theorems (Props/C13.lean, 52): the first error wins and nothing after it is looked at (a planted violation at any position is reported whatever follows); for each rule an iff-characterisation of when processNode returns that error with its exact payload and in which order the checks apply - undeclared / out-of-range register arguments, declaration limits (identifier length, register size, total size) and duplicates, measure size mismatch, non-gate under if, gate-body rules, unknown gate, register / parameter arity, control overlap, first unbound name in an expression; acceptance: a statement with no error condition is accepted and conversely (for programs using built-in gates). Tied to the code by the c13 suite: well-formed programs with exactly one planted violation (20 kinds) at a random position, expected variant checked on the implementation and payloads compared with the model; the same program without the violation must be accepted.",
+        "level_note": "Trusted: Lean kernel + standard axioms; hand-written model of the interpreter's checks. Known finding: a zero-size register does not reserve its name (qreg a[0]; qreg a[1]; is accepted).",
+        "technique": TECH,
+        "design_ref": "DESIGN.md section 5, C13",
+    },
+    "C15": {
+        "modules": ["Qvnt.Props.C15"],
+        "suites": [suite("dft", dict(count=500, max_n=6), dict(count=6000, max_n=9))],
+        "mismatch_tags": None,
+        "spec_tags": [r"dft"],
+        "trusted_base": TB_COMMON,
+        "assumptions": ASSUME_COMMON + ["the theorem is over the reals with Real.cos / Real.sin; the implementation uses libm at f64"],
+        "level_text": "Lean theorems (Props/C15.lean): for EVERY ascending list of selected bits (any 64-bit mask, contiguous or scattered) the circuit built by qft acts, on every state and index, as lam * DFT on the selected sub-register composed with the qubit reversal, and qft_swapped as lam * DFT, with |lam| = 1 and the identity on the other qubits; the swap layer is the reversal; each 'controlled RZ + RZ/2 on the control' pair is the controlled phase shift up to cis(-theta/4); qft followed by its dagger is the identity. Proved by radix-2 induction over the bit list (Lemmas/Dft*.lean) on top of Ctor.qft_apply (the model constructor builds exactly that circuit). Tied to the code by the dft suite: random masks and states, the implementation's output compared with the model and with the DFT matrix up to one global phase.",
+        "level_note": "Trusted: Lean kernel + standard axioms; model of multi/qft.rs (after the D10 repair).",
+        "technique": TECH,
+        "design_ref": "DESIGN.md section 5, C15 and Appendix A",
+    },
     "C14": {
         "modules": ["Qvnt.Props.C14"],
         "suites": [suite("reg", dict(count=500, max_n=6), dict(count=10000, max_n=9))],
